@@ -643,11 +643,11 @@ class CodeBuilder:
         else:
             config_cls = cls.__dict__.get("Config", BaseConfig)
         if not issubclass(config_cls, BaseConfig):
-            config_cls = type(
-                "Config",
-                (BaseConfig, config_cls),
-                {**BaseConfig.__dict__, **config_cls.__dict__},
-            )
+            namespace = dict(BaseConfig.__dict__)
+            # a plain Config may inherit its options from plain parents
+            for base in reversed(config_cls.__mro__[:-1]):
+                namespace.update(base.__dict__)
+            config_cls = type("Config", (BaseConfig, config_cls), namespace)
         return config_cls
 
     def get_discriminator(
